@@ -6,6 +6,7 @@ cd "$(dirname "$0")/.."
 ROOT=$(pwd)
 REPO=${VERIF_REPO:-/repo}
 python3-vt translator/rs2lean.py $REPO/src/block/gf128.rs > lean/PolytuneModel/Gen/Gf128.lean.new && mv lean/PolytuneModel/Gen/Gf128.lean.new lean/PolytuneModel/Gen/Gf128.lean
+python3 translator/rs2lean_validate.py $REPO > lean/PolytuneModel/Gen/Validate.lean.new && mv lean/PolytuneModel/Gen/Validate.lean.new lean/PolytuneModel/Gen/Validate.lean
 python3 translator/checksites.py $REPO > lean/PolytuneModel/Gen/Sites.lean.new && mv lean/PolytuneModel/Gen/Sites.lean.new lean/PolytuneModel/Gen/Sites.lean
 python3-vt translator/rs2lean_nat.py $REPO > lean/PolytuneModel/Gen/Arith.lean.new && mv lean/PolytuneModel/Gen/Arith.lean.new lean/PolytuneModel/Gen/Arith.lean
 (cd lean && lake build ptmodel $(ls PolytuneModel/Thm/*.lean | grep -v -e C13term -e C13n3 | sed 's#/#.#g; s#\.lean$##'))
